@@ -461,6 +461,73 @@ func (x *gen) strFunc() (string, string) {
 	}
 }
 
+// ---- operator adjacency: every binary operator followed by every prefix operator, postfix followed by binary,
+// nested; the compact printer must keep the tokens apart (a - --b is not a---b)
+var adjBin = []string{"+", "-", "*", "/", "%", "<", "<=", ">", ">=", "==", "!=", "&&", "||", "&", "|", "^", "<<", ">>"}
+var adjPre = []string{"-", "+", "--", "++", "!", "~", "^"}
+
+func (x *gen) adjExpr(d int) string {
+	bin, pre := adjBin[x.intn(len(adjBin))], adjPre[x.intn(len(adjPre))]
+	if x.intn(2) == 0 { // the critical pairs, half of the time
+		bin = []string{"-", "+"}[x.intn(2)]
+		pre = []string{"-", "+", "--", "++"}[x.intn(4)]
+	}
+	operand := "b"
+	if d > 0 && pre != "--" && pre != "++" && x.intn(3) == 0 {
+		operand = "(" + x.adjExpr(d-1) + ")"
+	}
+	switch x.intn(8) {
+	case 0:
+		return "a " + bin + " " + pre + "(" + []string{"-", "+", "!"}[x.intn(3)] + "b)" // a - -(-b)
+	case 1:
+		return "a" + []string{"++", "--"}[x.intn(2)] + " " + bin + " b" // postfix followed by binary: a++ + b
+	case 2:
+		return "a" + []string{"++", "--"}[x.intn(2)] + " " + bin + " " + pre + "b"
+	case 3:
+		if d > 0 {
+			return "(" + x.adjExpr(d-1) + ") " + bin + " " + pre + operand
+		}
+	case 4:
+		if d > 0 {
+			return "[" + x.adjExpr(d-1) + ", a " + bin + " " + pre + "b][" + []string{"0", "1"}[x.intn(2)] + "]"
+		}
+	case 5:
+		return "a * 2 " + bin + " " + pre + operand
+	}
+	return "a " + bin + " " + pre + operand
+}
+
+// adjFunc: a named function or lambda of two integer parameters around such an expression
+func (x *gen) adjFunc() (string, string) {
+	e := x.adjExpr(2)
+	switch x.intn(3) {
+	case 0:
+		n := x.pickName([]string{"opsub", "opadd", "opx"})
+		return "func " + n + "(a,b){" + e + "}", n
+	case 1:
+		n := x.pickName([]string{"oplam", "opl2"})
+		return n + " = (a,b) => " + e, n
+	default:
+		n := x.pickName([]string{"opsub", "opadd", "opx"})
+		return "func " + n + "(a,b){c = " + e + "; c " + adjBin[x.intn(len(adjBin))] + " " + adjPre[x.intn(len(adjPre))] + "a}", n
+	}
+}
+
+var adjArgs = []string{"(5,3)", "(2,7)", "(0,0)", "(-4,9)", "(1,1)"}
+
+func (x *gen) adjacencyCase() sessCase {
+	var st, calls []string
+	for i := 0; i < 1+x.intn(3); i++ {
+		s, n := x.adjFunc()
+		st = append(st, s)
+		for _, a := range adjArgs[:3] {
+			calls = append(calls, n+a)
+		}
+	}
+	st = append(st, "zz = 1")
+	return sessCase{kind: "operator-adjacency-in-function", maxLen: []int{0, 4000}[x.intn(2)], sessions: [][]string{st, {"zz = 2"}}, calls: calls}
+}
+
 func (x *gen) stringFuncCase() sessCase {
 	var st, calls []string
 	st = append(st, "aa = "+x.str())
@@ -483,6 +550,9 @@ var sessionCorpus = []sessCase{
 	// string literals inside function bodies: a double quote together with a newline, tab, NUL, high byte; a raw string
 	{"string-literal-in-function", 4000, [][]string{{"aa = 1", "func usage(who){\"dear \\\"\" + who + \"\\\":\\nsee \\\"help\\\"\\n\"}", "lam = a => [\"q\\\"\\n\\t\\x00\\xff\", {\"k\\\"\\r\": a}]", "zz = 2"}, {"zz = 3"}}, []string{"usage(\"you\")", "lam(1)"}},
 	{"string-literal-in-function", 0, [][]string{{"func raw(a){`say \"hi\"\nsecond \"line\"\ttab`}", "r2 = a => `{\"k\":\n\"v\"}` + a", "zz = 2"}}, []string{"raw(1)", "r2(\"x\")"}},
+	// a binary - or + followed by the prefix -- / ++ / - / +, postfix followed by binary
+	{"operator-adjacency-in-function", 4000, [][]string{{"func sub(a,b){a - --b}", "func add(a,b){a + ++b}", "lam = (a,b) => a*2 - --b", "m2 = (a,b) => a - -b", "pf = (a,b) => a++ + b", "nn = (a,b) => a - -(-b)"}, {"zz = 1"}},
+		[]string{"sub(5,3)", "add(5,3)", "lam(5,3)", "m2(5,3)", "pf(5,3)", "nn(5,3)"}},
 	// aliases
 	{"alias-name-redefined", 0, [][]string{{"func f(x){1}", "k = f", "func f(x){2}"}}, []string{"f(0)", "k(0)"}},
 	{"alias-name-redefined", 0, [][]string{{"func f(x){1}", "a = f", "func f(x){2}"}}, []string{"f(0)", "a(0)"}},
@@ -510,6 +580,7 @@ func runSessions(c *Ctx, x *gen) {
 		checkSessions(c, x.aliasCase())
 		checkSessions(c, x.mutationCase())
 		checkSessions(c, x.stringFuncCase())
+		checkSessions(c, x.adjacencyCase())
 	}
 	os.Remove(".gr")
 	os.Remove("st.gr")
